@@ -401,3 +401,318 @@ Section F.
     rewrite E. unfold Lexer.lex. rewrite (lex_render is_letter is_number infix items' _ lead' Hwf' Hl') by lia. rewrite Et. reflexivity.
   Qed.
 End F.
+
+(* ---------- E. the final trim ---------- *)
+
+Definition rtrim (s : str) : str := rev (trim_left (rev s)).
+
+Lemma trim_rtrim s : trim s = rtrim (trim_left s).
+Proof. reflexivity. Qed.
+
+Lemma all_space_rev ws : all_space ws -> all_space (rev ws).
+Proof. intros H. apply Forall_forall. intros x Hx. apply in_rev in Hx. revert x Hx. apply Forall_forall. exact H. Qed.
+
+Lemma rtrim_app_space s ws : all_space ws -> rtrim (s ++ ws) = rtrim s.
+Proof. intros H. unfold rtrim. rewrite rev_app_distr. rewrite trim_left_spaces by (apply all_space_rev; exact H). reflexivity. Qed.
+
+Lemma rtrim_nonspace s c : is_space c = false -> rtrim (s ++ [c]) = s ++ [c].
+Proof. intros H. unfold rtrim. rewrite rev_app_distr. cbn [rev app trim_left]. rewrite H. cbn [rev]. rewrite rev_involutive. reflexivity. Qed.
+
+Lemma trim_left_split s : exists ws, s = ws ++ trim_left s /\ all_space ws.
+Proof.
+  induction s as [|c s (ws & E & H)]; [exists []; split; [reflexivity|constructor]|]. cbn [trim_left].
+  destruct (is_space c) eqn:Hc; [|exists []; split; [reflexivity|constructor]].
+  exists (c :: ws). split; [cbn [app]; f_equal; exact E|constructor; assumption].
+Qed.
+
+Lemma trim_left_head s : trim_left s = [] \/ exists d r, trim_left s = d :: r /\ is_space d = false.
+Proof.
+  induction s as [|c s IH]; [left; reflexivity|]. cbn [trim_left]. destruct (is_space c) eqn:Hc; [exact IH|].
+  right. exists c, s. split; [reflexivity|exact Hc].
+Qed.
+
+Lemma rtrim_split t : exists ws, t = rtrim t ++ ws /\ all_space ws.
+Proof.
+  destruct (trim_left_split (rev t)) as (ws & E & H). exists (rev ws). split; [|apply all_space_rev; exact H].
+  unfold rtrim. rewrite <- rev_app_distr, <- E, rev_involutive. reflexivity.
+Qed.
+
+Lemma rtrim_last t : rtrim t = [] \/ exists r d, rtrim t = r ++ [d] /\ is_space d = false.
+Proof.
+  unfold rtrim. destruct (trim_left_head (rev t)) as [E|(d & r & E & H)]; rewrite E; [left; reflexivity|].
+  right. exists (rev r), d. split; [reflexivity|exact H].
+Qed.
+
+Lemma rtrim_keep s c t : is_space c = false -> rtrim (s ++ c :: t) = s ++ c :: rtrim t.
+Proof.
+  intros Hc. destruct (rtrim_split t) as (ws & E & Hws). rewrite E at 1.
+  replace (s ++ c :: rtrim t ++ ws) with ((s ++ c :: rtrim t) ++ ws) by (rewrite <- app_assoc; reflexivity).
+  rewrite rtrim_app_space by exact Hws.
+  destruct (rtrim_last t) as [E0|(r & d & E0 & Hd)]; rewrite E0.
+  - apply rtrim_nonspace. exact Hc.
+  - replace (s ++ c :: r ++ [d]) with ((s ++ c :: r) ++ [d]) by (rewrite <- app_assoc; reflexivity). apply rtrim_nonspace. exact Hd.
+Qed.
+
+Lemma rtrim_in x t : In x (rtrim t) -> In x t.
+Proof. intros H. destruct (rtrim_split t) as (ws & E & _). rewrite E. apply in_or_app. left. exact H. Qed.
+
+Lemma render_app a b : render (a ++ b) = render a ++ render b.
+Proof. induction a as [|[t sep] a IH]; [reflexivity|]. cbn [app render]. rewrite IH, <- !app_assoc. reflexivity. Qed.
+
+(* a comment ending the text loses its trailing white space; nothing else changes *)
+Definition trim_last (toks : list tok) : list tok :=
+  match rev toks with KComment s :: r => rev r ++ [KComment (rtrim s)] | _ => toks end.
+
+Lemma drop_comments_app a b : drop_comments (a ++ b) = drop_comments a ++ drop_comments b.
+Proof. apply filter_app. Qed.
+
+Lemma trim_last_drop toks : drop_comments (trim_last toks) = drop_comments toks.
+Proof.
+  unfold trim_last. destruct (rev toks) as [|t r] eqn:E; [reflexivity|]. destruct t; try reflexivity.
+  assert (Et : toks = rev r ++ [KComment s]) by (rewrite <- (rev_involutive toks), E; reflexivity).
+  rewrite Et, !drop_comments_app. reflexivity.
+Qed.
+
+Section T.
+  Variable is_letter is_number : N -> bool.
+  Notation wf_tok := (wf_tok is_letter is_number).
+  Notation wf_items := (wf_items is_letter is_number).
+
+  Lemma tok_last infix t : wf_tok infix t -> is_comment t = false -> exists r d, tok_text t = r ++ [d] /\ is_space d = false.
+  Proof.
+    assert (W : forall s, (exists c w, s = c :: w /\ wordc c = true /\ c <> 59%N /\ c <> 34%N /\ Forall (fun c => wordc c = true) w) ->
+                exists r d, s = r ++ [d] /\ is_space d = false).
+    { intros s (c & w & -> & Hc & _ & _ & Hw).
+      assert (Hall : Forall (fun c => wordc c = true) (c :: w)) by (constructor; assumption).
+      destruct (@exists_last _ (c :: w) ltac:(discriminate)) as (r & d & E). rewrite E in *. exists r, d. split; [reflexivity|].
+      apply Forall_app in Hall. destruct Hall as [_ Hd]. inversion Hd; subst. apply wordc_class. assumption. }
+    destruct t as [s|s|s| | | | | |s]; cbn [LexProofs.wf_tok tok_text is_comment]; intros H Hc; try discriminate.
+    - apply W. tauto.
+    - exists (34%N :: s), 34%N. split; reflexivity.
+    - apply W. tauto.
+    - exists [], 40%N. split; reflexivity.
+    - exists [], 41%N. split; reflexivity.
+    - exists [], 91%N. split; reflexivity.
+    - exists [], 93%N. split; reflexivity.
+    - exists [], 44%N. split; reflexivity.
+  Qed.
+
+  Lemma sep_ok_next u su n1 n2 : sep_ok u su n1 -> n1 <> [] -> hd_error n1 = hd_error n2 -> sep_ok u su n2.
+  Proof.
+    intros (H1 & H2 & H3) Hn Eh. split; [exact H1|split].
+    - intros E Hw. specialize (H2 E Hw). destruct n1 as [|c1 n1]; [contradiction|]. destruct n2 as [|c2 n2]; [exact I|].
+      cbn in Eh. inversion Eh; subst. exact H2.
+    - intros Hc. destruct (H3 Hc) as [L|[_ E]]; [left; exact L|contradiction].
+  Qed.
+
+  Lemma render_head infix its t sep : wf_items infix (its ++ [(t, sep)]) ->
+    render (its ++ [(t, sep)]) <> [] /\
+    forall t' sep', hd_error (tok_text t') = hd_error (tok_text t) -> tok_text t' <> [] ->
+      hd_error (render (its ++ [(t', sep')])) = hd_error (render (its ++ [(t, sep)])).
+  Proof.
+    destruct its as [|[u su] its]; cbn [app LexProofs.wf_items render]; intros (Hu & _).
+    - destruct (tok_head is_letter is_number infix t Hu) as (c & r & E & _). rewrite E. split; [discriminate|].
+      intros t' sep' Eh Hne. destruct (tok_text t') as [|c' r']; [contradiction|]. cbn in *. exact Eh.
+    - destruct (tok_head is_letter is_number infix u Hu) as (c & r & E & _). rewrite E. split; [discriminate|]. intros; reflexivity.
+  Qed.
+
+  (* replacing the last item by one whose token starts with the same character *)
+  Lemma wf_replace_last infix t t' sep : wf_tok infix t' -> hd_error (tok_text t') = hd_error (tok_text t) ->
+    forall its, wf_items infix (its ++ [(t, sep)]) -> wf_items infix (its ++ [(t', [])]).
+  Proof.
+    intros Ht' Eh. induction its as [|[u su] its IH]; cbn [app LexProofs.wf_items]; intros (Hu & Hs & Hr).
+    - split; [exact Ht'|split; [|exact I]]. split; [constructor|split; [intros; exact I|intros; right; split; reflexivity]].
+    - split; [exact Hu|split; [|apply IH; exact Hr]].
+      destruct (render_head infix its t sep Hr) as (Hne & Hh).
+      apply (sep_ok_next u su _ _ Hs Hne). symmetry. apply Hh; [exact Eh|].
+      destruct (tok_head is_letter is_number infix t' Ht') as (c & r & E & _). rewrite E. discriminate.
+  Qed.
+
+  Lemma fst_nonspace infix items : wf_items infix items -> trim_left (render items) = render items.
+  Proof.
+    destruct items as [|[t sep] rest]; [reflexivity|]. cbn [LexProofs.wf_items render]. intros (Ht & _).
+    destruct (tok_head is_letter is_number infix t Ht) as (c & r & E & Hc). rewrite E. cbn [app trim_left]. rewrite Hc. reflexivity.
+  Qed.
+
+  (* trimming a rendering: again a rendering, of `trim_last` of the tokens *)
+  Theorem trim_render infix lead items : all_space lead -> wf_items infix items ->
+    exists items', trim (lead ++ render items) = render items' /\ wf_items infix items' /\
+                   map fst items' = trim_last (map fst items).
+  Proof.
+    intros Hl Hwf. rewrite trim_rtrim, (trim_left_spaces lead _ Hl), (fst_nonspace infix items Hwf).
+    destruct items as [|it items0] eqn:Ei; [exists []; repeat split|]. rewrite <- Ei in *.
+    destruct (@exists_last _ items ltac:(rewrite Ei; discriminate)) as (its & [t sep] & E). clear Ei it items0. subst items.
+    assert (Hwt : wf_tok infix t /\ all_space sep).
+    { clear -Hwf. induction its as [|[u su] its IH]; cbn [app LexProofs.wf_items] in Hwf.
+      - destruct Hwf as (H & (H2 & _) & _). split; assumption.
+      - apply IH. tauto. }
+    destruct Hwt as [Ht Hsep].
+    rewrite render_app. cbn [render]. rewrite app_nil_r.
+    replace (render its ++ tok_text t ++ sep) with ((render its ++ tok_text t) ++ sep) by (rewrite <- app_assoc; reflexivity).
+    rewrite rtrim_app_space by exact Hsep.
+    assert (Hmap : forall t', map fst (its ++ [(t', @nil N)]) = map fst its ++ [t']) by (intros; rewrite map_app; reflexivity).
+    destruct (is_comment t) eqn:Hc.
+    - destruct t as [s|s|s| | | | | |s]; try discriminate. cbn [LexProofs.wf_tok] in Ht. destruct Ht as (text & -> & Hnl).
+      cbn [tok_text]. rewrite rtrim_keep by reflexivity.
+      exists (its ++ [(KComment (59%N :: rtrim text), [])]). split; [|split].
+      + rewrite render_app. cbn [render tok_text]. rewrite !app_nil_r. reflexivity.
+      + apply (wf_replace_last infix (KComment (59%N :: text)) _ sep); [|reflexivity|exact Hwf].
+        cbn [LexProofs.wf_tok]. eexists. split; [reflexivity|]. intros Hin. apply Hnl. apply rtrim_in. exact Hin.
+      + rewrite Hmap. rewrite map_app. cbn [map fst]. unfold trim_last. rewrite rev_app_distr. cbn [rev app].
+        rewrite rev_involutive. do 3 f_equal. change (59%N :: text) with ([] ++ 59%N :: text). rewrite rtrim_keep by reflexivity. reflexivity.
+    - destruct (tok_last infix t Ht Hc) as (r & d & Et & Hd). rewrite Et.
+      replace (render its ++ r ++ [d]) with ((render its ++ r) ++ [d]) by (rewrite <- app_assoc; reflexivity).
+      rewrite rtrim_nonspace by exact Hd.
+      exists (its ++ [(t, [])]). split; [|split].
+      + rewrite render_app. cbn [render]. rewrite Et, !app_nil_r, <- app_assoc. reflexivity.
+      + apply (wf_replace_last infix t t sep); [exact Ht|reflexivity|exact Hwf].
+      + rewrite Hmap. rewrite map_app. cbn [map fst]. unfold trim_last. rewrite rev_app_distr. cbn [rev app].
+        destruct t; try discriminate; reflexivity.
+  Qed.
+
+  (* IndentByParentheses on every rendering of every well-formed token list: the lexer reads the same tokens and
+     comments from the result (a comment ending the text loses its trailing white space) *)
+  Theorem indent_tokens infix lead items : all_space lead -> wf_items infix items -> noq items ->
+    lex is_letter is_number infix (indent_by_parens (lead ++ render items)) = Some (trim_last (map fst items)).
+  Proof.
+    intros Hl Hwf Hq. rewrite indent_by_parens_fmt.
+    destruct (fmt_render is_letter is_number infix lead items Hl Hwf Hq) as (lead' & items' & E & Hl' & Hwf' & Et).
+    rewrite E. destruct (trim_render infix lead' items' Hl' Hwf') as (items'' & E2 & Hwf'' & Et'').
+    rewrite E2. unfold Lexer.lex.
+    rewrite (lex_render is_letter is_number infix items'' _ [] Hwf'' (Forall_nil _)) by (cbn [app]; lia).
+    rewrite Et'', Et. reflexivity.
+  Qed.
+
+  (* what the parser sees — the tokens without the comments — is unchanged *)
+  Corollary indent_meaning infix lead items : all_space lead -> wf_items infix items -> noq items ->
+    option_map drop_comments (lex is_letter is_number infix (indent_by_parens (lead ++ render items))) =
+    option_map drop_comments (lex is_letter is_number infix (lead ++ render items)).
+  Proof.
+    intros Hl Hwf Hq. rewrite (indent_tokens infix lead items Hl Hwf Hq). unfold Lexer.lex.
+    rewrite (lex_render is_letter is_number infix items _ lead Hwf Hl) by lia. cbn [option_map]. rewrite trim_last_drop. reflexivity.
+  Qed.
+End T.
+
+(* ---------- F. no word the lexer classifies contains a double quote ---------- *)
+
+Definition pbody (neg : bool) (body : str) : option Z :=
+  match body with
+  | [] => None
+  | _ => match digits_val 0 body with
+         | Some v => let v' := if neg then - v else v in if in_i64 v' then Some v' else None
+         | None => None
+         end
+  end.
+
+Lemma parse_int_if s : parse_int s =
+  match s with [] => None | c :: r => if (c =? 43)%N then pbody false r else if (c =? 45)%N then pbody true r else pbody false s end.
+Proof.
+  destruct s as [|c r]; [reflexivity|]. destruct c as [|p]; [reflexivity|].
+  do 6 (try (destruct p as [p|p|]); try reflexivity).
+Qed.
+
+Lemma digits_val_digits s : forall acc v, digits_val acc s = Some v -> Forall (fun c => is_digit c = true) s.
+Proof.
+  induction s as [|c s IH]; intros acc v H; [constructor|]. cbn [digits_val] in H. destruct (is_digit c) eqn:E; [|discriminate].
+  constructor; [exact E|eapply IH; exact H].
+Qed.
+
+Lemma pbody_digits neg body v : pbody neg body = Some v -> Forall (fun c => is_digit c = true) body.
+Proof.
+  unfold pbody. destruct body as [|c r]; [discriminate|]. destruct (digits_val 0 (c :: r)) as [v0|] eqn:E; [|discriminate].
+  intros _. eapply digits_val_digits. exact E.
+Qed.
+
+Lemma digits_noq body : Forall (fun c => is_digit c = true) body -> ~ In 34%N body.
+Proof. intros H Hin. rewrite Forall_forall in H. specialize (H _ Hin). discriminate. Qed.
+
+Lemma valid_int_noq s : valid_int s = true -> ~ In 34%N s.
+Proof.
+  unfold valid_int. rewrite parse_int_if. destruct s as [|c r]; [intros _ []|].
+  destruct (c =? 43)%N eqn:E1.
+  { apply N.eqb_eq in E1. subst c. destruct (pbody false r) eqn:E; [|discriminate]. intros _ [H|H]; [discriminate|].
+    exact (digits_noq r (pbody_digits _ _ _ E) H). }
+  destruct (c =? 45)%N eqn:E2.
+  { apply N.eqb_eq in E2. subst c. destruct (pbody true r) eqn:E; [|discriminate]. intros _ [H|H]; [discriminate|].
+    exact (digits_noq r (pbody_digits _ _ _ E) H). }
+  destruct (pbody false (c :: r)) eqn:E; [|discriminate]. intros _. exact (digits_noq _ (pbody_digits _ _ _ E)).
+Qed.
+
+Lemma lookup_builtin_in name tbl o : lookup_builtin name tbl = Some o -> In name (map (fun p => ss (fst p)) tbl).
+Proof.
+  induction tbl as [|[k o'] tbl IH]; cbn [lookup_builtin map fst]; [discriminate|].
+  destruct (str_eqb name (ss k)) eqn:E; [intros _; left; symmetry; apply list_eqb_N_eq; exact E|intros H; right; exact (IH H)].
+Qed.
+
+(* over the regenerated operator table: no built-in name contains a double quote *)
+Lemma builtin_names_noq : forallb (fun p => negb (existsb (N.eqb 34) (ss (fst p)))) builtin_table = true.
+Proof. vm_compute. reflexivity. Qed.
+
+Lemma builtin_noq w : is_builtin_name w = true -> ~ In 34%N w.
+Proof.
+  unfold is_builtin_name, builtin. destruct (lookup_builtin w builtin_table) as [o|] eqn:E; [|discriminate]. intros _ Hin.
+  apply lookup_builtin_in in E. apply in_map_iff in E. destruct E as (p & <- & Hp).
+  pose proof builtin_names_noq as B. rewrite forallb_forall in B. specialize (B p Hp). apply negb_true_iff in B.
+  assert (existsb (N.eqb 34) (ss (fst p)) = true) by (apply existsb_exists; exists 34%N; split; [exact Hin|reflexivity]). congruence.
+Qed.
+
+Section Q.
+  Variable is_letter is_number : N -> bool.
+  Hypothesis letter_q : is_letter 34%N = false.
+  Hypothesis number_q : is_number 34%N = false.
+
+  Lemma ident_scan_noq whole : forall s idx pd last, ident_scan is_letter is_number whole s idx pd last = true ->
+    is_builtin_name whole = true \/ ~ In 34%N s.
+  Proof.
+    induction s as [|r s IH]; intros idx pd last H; [right; intros []|]. cbn [ident_scan] in H.
+    assert (Hr : forall idx' pd', ident_scan is_letter is_number whole s idx' pd' last = true -> r <> 34%N ->
+                 is_builtin_name whole = true \/ ~ In 34%N (r :: s)).
+    { intros idx' pd' H' Hne. destruct (IH _ _ _ H') as [L|R]; [left; exact L|right]. intros [E|Hin]; [exact (Hne E)|exact (R Hin)]. }
+    destruct (is_letter r) eqn:E1; [apply (Hr _ _ H); intros ->; congruence|].
+    destruct (r =? 95)%N eqn:E2; [apply (Hr _ _ H); intros ->; discriminate|].
+    destruct (is_number r && negb (idx =? 0)) eqn:E3;
+      [apply (Hr _ _ H); intros ->; rewrite number_q in E3; discriminate|].
+    destruct (r =? 46)%N eqn:E4; [|left; exact H].
+    destruct ((idx =? pd + 1) || (idx =? 0) || (idx =? last)); [discriminate|]. apply (Hr _ _ H). intros ->; discriminate.
+  Qed.
+
+  Lemma valid_ident_noq w : valid_ident is_letter is_number w = true -> ~ In 34%N w.
+  Proof. unfold valid_ident. intros H. destruct (ident_scan_noq w w _ _ _ H) as [B|R]; [apply builtin_noq; exact B|exact R]. Qed.
+
+  Lemma classify_word infix w t : classify is_letter is_number infix w = Some [t] -> t = KInt w \/ t = KIdent w ->
+    valid_int w = true \/ valid_ident is_letter is_number w = true.
+  Proof.
+    intros H Ht. unfold classify in H.
+    assert (P : (if str_eqb w (ss "(") then Some [KLParen] else if str_eqb w (ss ")") then Some [KRParen]
+                 else if str_eqb w (ss "[") then Some [KLBracket] else if str_eqb w (ss "]") then Some [KRBracket]
+                 else if str_eqb w (ss ",") then Some [KComma]
+                 else if valid_int w then Some [KInt w]
+                 else if valid_ident is_letter is_number w then Some [KIdent w] else None) = Some [t] ->
+                valid_int w = true \/ valid_ident is_letter is_number w = true).
+    { intros P. destruct (str_eqb w (ss "(")); [inversion P; subst; destruct Ht; discriminate|].
+      destruct (str_eqb w (ss ")")); [inversion P; subst; destruct Ht; discriminate|].
+      destruct (str_eqb w (ss "[")); [inversion P; subst; destruct Ht; discriminate|].
+      destruct (str_eqb w (ss "]")); [inversion P; subst; destruct Ht; discriminate|].
+      destruct (str_eqb w (ss ",")); [inversion P; subst; destruct Ht; discriminate|].
+      destruct (valid_int w); [left; reflexivity|]. destruct (valid_ident is_letter is_number w); [right; reflexivity|discriminate]. }
+    destruct w as [|c rest]; [exact (P H)|]. destruct ((c =? 33)%N && infix); [|exact (P H)].
+    destruct (valid_ident is_letter is_number (c :: rest)) eqn:E; [right; reflexivity|].
+    destruct (valid_ident is_letter is_number rest); [discriminate|exact (P H)].
+  Qed.
+
+  Lemma wf_noq infix items : wf_items is_letter is_number infix items -> noq items.
+  Proof.
+    induction items as [|[t sep] rest IH]; cbn [LexProofs.wf_items]; intros H; [constructor|]. destruct H as (Ht & _ & Hr).
+    constructor; [|apply IH; exact Hr]. cbn [fst].
+    destruct t as [s|s|s| | | | | |s]; try exact I; cbn [LexProofs.wf_tok] in Ht; destruct Ht as [_ Hc].
+    - destruct (classify_word infix s _ Hc (or_introl eq_refl)) as [V|V]; [apply valid_int_noq|apply valid_ident_noq]; exact V.
+    - destruct (classify_word infix s _ Hc (or_intror eq_refl)) as [V|V]; [apply valid_int_noq|apply valid_ident_noq]; exact V.
+  Qed.
+
+  (* IndentByParentheses on every rendering of every well-formed token list *)
+  Theorem indent_tokens_wf infix lead items : all_space lead -> wf_items is_letter is_number infix items ->
+    lex is_letter is_number infix (indent_by_parens (lead ++ render items)) = Some (trim_last (map fst items)).
+  Proof. intros Hl Hwf. apply indent_tokens; [exact Hl|exact Hwf|apply (wf_noq infix); exact Hwf]. Qed.
+End Q.
+
+Print Assumptions indent_tokens_wf.
